@@ -155,6 +155,83 @@ impl<'tcx> Cx<'tcx> {
         format!("{{\"l\":{},\"p\":{}}}", p.local.as_usize(), jlist(&projs))
     }
 
+    /// (start, end, inclusive) of a constant of type `[&]Range<int>` / `[&]RangeInclusive<int>`, read from its evaluated memory
+    fn const_range(&self, owner: DefId, c: &mir::ConstOperand<'tcx>) -> Option<(u128, u128, bool)> {
+        let tcx = self.tcx;
+        let tenv = TypingEnv::post_analysis(tcx, owner);
+        let ty = c.const_.ty();
+        let (adt_ty, by_ref) = match ty.kind() {
+            ty::Ref(_, inner, _) => (*inner, true),
+            _ => (ty, false),
+        };
+        let (adt, args) = match adt_ty.kind() {
+            ty::Adt(a, s) => (*a, *s),
+            _ => return None,
+        };
+        let path = tcx.def_path_str(adt.did());
+        let incl = path.ends_with("ops::RangeInclusive") || path.ends_with("range::RangeInclusive");
+        if !(incl || path.ends_with("ops::Range") || path.ends_with("range::Range")) {
+            return None;
+        }
+        let idx_ty = args.types().next()?;
+        if !idx_ty.is_integral() {
+            return None;
+        }
+        let val = c.const_.eval(tcx, tenv, c.span).ok()?;
+        let layout = tcx.layout_of(tenv.as_query_input(adt_ty)).ok()?;
+        let variant = adt.non_enum_variant();
+        let fsize = tcx.layout_of(tenv.as_query_input(idx_ty)).ok()?.size.bytes() as usize;
+        let read = |bytes: &[u8], off: usize| -> Option<u128> {
+            let s = bytes.get(off..off + fsize)?;
+            let mut v: u128 = 0;
+            for (i, b) in s.iter().enumerate() {
+                v |= (*b as u128) << (8 * i);
+            }
+            Some(v)
+        };
+        let mut start = None;
+        let mut end = None;
+        let bytes: Vec<u8> = match val {
+            mir::ConstValue::Scalar(mir::interpret::Scalar::Ptr(ptr, _)) if by_ref => {
+                let (prov, off) = ptr.into_raw_parts();
+                let alloc = match tcx.global_alloc(prov.alloc_id()) {
+                    mir::interpret::GlobalAlloc::Memory(a) => a,
+                    _ => return None,
+                };
+                let a = alloc.inner();
+                let o = off.bytes() as usize;
+                let n = layout.size.bytes() as usize;
+                if o + n > a.len() {
+                    return None;
+                }
+                a.inspect_with_uninit_and_ptr_outside_interpreter(o..o + n).to_vec()
+            }
+            mir::ConstValue::Indirect { alloc_id, offset } if !by_ref => {
+                let alloc = match tcx.global_alloc(alloc_id) {
+                    mir::interpret::GlobalAlloc::Memory(a) => a,
+                    _ => return None,
+                };
+                let a = alloc.inner();
+                let o = offset.bytes() as usize;
+                let n = layout.size.bytes() as usize;
+                if o + n > a.len() {
+                    return None;
+                }
+                a.inspect_with_uninit_and_ptr_outside_interpreter(o..o + n).to_vec()
+            }
+            _ => return None,
+        };
+        for (i, f) in variant.fields.iter().enumerate() {
+            let off = layout.fields.offset(i).bytes() as usize;
+            match f.name.as_str() {
+                "start" => start = read(&bytes, off),
+                "end" => end = read(&bytes, off),
+                _ => {}
+            }
+        }
+        Some((start?, end?, incl))
+    }
+
     fn konst(&self, owner: DefId, c: &mir::ConstOperand<'tcx>) -> String {
         let tcx = self.tcx;
         let tenv = TypingEnv::post_analysis(tcx, owner);
@@ -188,6 +265,9 @@ impl<'tcx> Cx<'tcx> {
                     parts.push(format!("\"sv\":\"{}\"", sv));
                 }
             }
+        } else if let Some(r) = self.const_range(owner, c) {
+            // a constant `a..b` / `a..=b` (usually a promoted `&Range<usize>` behind `.contains(&x)`): emit its bounds
+            parts.push(format!("\"range\":[\"{}\",\"{}\"],\"incl\":{}", r.0, r.1, r.2));
         } else if let ty::Ref(_, inner, _) = ty.kind() {
             if inner.is_str() || matches!(inner.kind(), ty::Slice(t) if *t == tcx.types.u8) || matches!(inner.kind(), ty::Array(t, _) if *t == tcx.types.u8) {
                 if let Ok(val) = c.const_.eval(tcx, tenv, c.span) {
